@@ -44,11 +44,13 @@ Init == doc = <<>> /\ depth = 0 /\ fin = FALSE
 AddOpen ==
   /\ ~fin /\ Len(doc) < MaxItems /\ depth < MaxDepth
   /\ \E ds \in {{}} \cup { {d} : d \in Decl }, a1 \in Attr \cup {[f |-> "none"]}, a2 \in Attr \cup {[f |-> "none"]}, ep \in ElemP, dfirst \in BOOLEAN,
-        sc \in BOOLEAN :        \* sc: a self-closing element (its declarations end with it)
+        sc \in BOOLEAN,         \* sc: a self-closing element (its declarations end with it)
+        un \in BOOLEAN :        \* un: a start tag that is never closed (tag soup): its scope ends with its parent
        /\ (a1.f = "none" => a2.f = "none")
+       /\ ~(sc /\ un) /\ (un => depth > 0)
        /\ doc' = Append(doc, [k |-> "open", ds |-> ds, as |-> SelectSeq(<<a1, a2>>, LAMBDA a : a.f # "none"),
-                               ep |-> ep, dfirst |-> dfirst, sc |-> sc])
-       /\ depth' = IF sc THEN depth ELSE depth + 1
+                               ep |-> ep, dfirst |-> dfirst, sc |-> sc, un |-> un])
+       /\ depth' = IF sc \/ un THEN depth ELSE depth + 1
   /\ UNCHANGED fin
 AddClose ==
   /\ ~fin /\ depth > 0
@@ -62,14 +64,18 @@ Spec == Init /\ [][Next]_vars
 Apply(m, ds) == [p \in DOMAIN m |-> IF \E d \in ds : d.p = p THEN (CHOOSE d \in ds : d.p = p).u ELSE m[p]]
 
 \* maps in force at every item (stack discipline)
+\* the stack holds [m: map, un: pushed by an unclosed start tag]; an end tag closes the innermost real element
+\* together with every unclosed start tag inside it
+RECURSIVE PopToOpen(_)
+PopToOpen(stk) == IF stk[Len(stk)].un THEN PopToOpen(SubSeq(stk, 1, Len(stk) - 1)) ELSE SubSeq(stk, 1, Len(stk) - 1)
 RECURSIVE MapsFrom(_, _, _)
 MapsFrom(n, stk, acc) ==
   IF n > Len(doc) THEN acc
   ELSE IF doc[n].k = "open"
-       THEN LET m == Apply(stk[Len(stk)], doc[n].ds) IN
-            MapsFrom(n + 1, IF doc[n].sc THEN stk ELSE Append(stk, m), Append(acc, m))
-       ELSE MapsFrom(n + 1, SubSeq(stk, 1, Len(stk) - 1), Append(acc, stk[Len(stk)]))
-Maps == MapsFrom(1, <<Default>>, <<>>)
+       THEN LET m == Apply(stk[Len(stk)].m, doc[n].ds) IN
+            MapsFrom(n + 1, IF doc[n].sc THEN stk ELSE Append(stk, [m |-> m, un |-> doc[n].un]), Append(acc, m))
+       ELSE MapsFrom(n + 1, PopToOpen(stk), Append(acc, stk[Len(stk)].m))
+Maps == MapsFrom(1, <<[m |-> Default, un |-> FALSE]>>, <<>>)
 
 \* an unprefixed element is in the default namespace in force
 ElemNs(n) == Maps[n][doc[n].ep]
